@@ -14,6 +14,8 @@ shapes: method tokens, request-target forms, raw bytes, lengths around hyper's l
 read buffer 417792), versions, line endings, header syntax, obs-text / control bytes, duplicates, Connection / HTTP/1.0
 keep-alive, Content-Length / Transfer-Encoding, pipelining, split writes, cut requests."""
 
+from urllib.parse import unquote_to_bytes
+
 CRLF = b"\r\n"
 
 METHODS_OK = [b"POST", b"HEAD", b"PUT", b"DELETE", b"OPTIONS", b"PATCH", b"TRACE", b"CONNECT", b"get", b"GETX", b"GE", b"M-SEARCH", b"G.E_T",
@@ -81,7 +83,8 @@ def base_parts(rng, base, regs, router):
         return b"/routers/" + name.replace(b" ", b"%20") + tail, None, []
     while True:
         m, path, query, hs = parse_q(base.gen_request(rng, regs))
-        if router and path.startswith(b"/routers/") and path[9:10].isdigit():
+        dec = unquote_to_bytes(path)
+        if router and dec.startswith(b"/routers/") and dec[9:10].isdigit():
             continue        # the ingress ids the unit hands out are not part of the case
         return path, query, hs
 
